@@ -67,31 +67,49 @@ Theorem C10_names_independent : forall W ops f, forallb (wop_ok W) ops = true ->
 Proof. exact names_independent. Qed.
 Print Assumptions C10_names_independent.
 
-(* net_io_counters / disk_io_counters as written: every call sequence in which no
-   nowrap=True call finds the device list empty *)
-Theorem C10_public_exact : forall ops, forallb pop_ok ops = true -> no_empty_nowrap ops = true ->
+(* net_io_counters / disk_io_counters as they are now (after commit e278b23): EVERY call
+   sequence over both functions, any pernic/perdisk and nowrap values, cache_clear
+   anywhere, listings that may be empty: every answer is the demanded one *)
+Theorem C10_public_exact : forall ops, forallb pop_ok ops = true ->
   ptrace false [] ops = map Val (spec_ptrace [] ops).
 Proof. exact public_exact. Qed.
 Print Assumptions C10_public_exact.
 
-(* finding nowrap-empty-snapshot: the only device vanishes (the caller returns before
-   the wrap step, the cache keeps the old reading) and reappears with a smaller
-   reading: answered 105, demanded 5 *)
-Theorem C10_public_refuted :
-  exists ops, forallb pop_ok ops = true /\
-    nth 2 (ptrace false [] ops) OutOfModel = Val (PDict [(bs "eth0", [0; 105; 0; 0; 0; 0; 0; 0])]) /\
-    nth 2 (spec_ptrace [] ops) PNone = PDict [(bs "eth0", [0; 5; 0; 0; 0; 0; 0; 0])].
-Proof. exact public_refuted. Qed.
-Print Assumptions C10_public_refuted.
+(* a device absent from the previous nowrap=True listing of this function -- also
+   when that listing was empty, i.e. every device had gone -- starts afresh *)
+Theorem C10_public_reappear_fresh : forall ops s f per raw s' a dprev h k t,
+  forallb pop_ok ops = true -> dict_ok (width f) raw = true ->
+  pexec false [] ops = Val s -> pstep false s (PCall f per true raw) = Val (s', a) ->
+  gget (spec_pexec [] ops) (fname f) = dprev :: h -> lookup k dprev = None ->
+  lookup k raw = Some t ->
+  exists o, a = present f per o /\ lookup k o = Some t.
+Proof. exact public_reappear_fresh. Qed.
+Print Assumptions C10_public_reappear_fresh.
 
-(* with the empty test moved after the wrap step (proposed repair): every sequence *)
-Theorem C10_public_exact_repaired : forall ops, forallb pop_ok ops = true ->
-  ptrace true [] ops = map Val (spec_ptrace [] ops).
-Proof. exact public_exact_repaired. Qed.
-Print Assumptions C10_public_exact_repaired.
+(* the all-devices-gone case spelled out: after a nowrap=True call that listed no
+   device, the next nowrap=True answer is the raw listing *)
+Theorem C10_public_all_gone_fresh : forall ops s f per raw s' a h,
+  forallb pop_ok ops = true -> dict_ok (width f) raw = true ->
+  pexec false [] ops = Val s -> pstep false s (PCall f per true raw) = Val (s', a) ->
+  gget (spec_pexec [] ops) (fname f) = [] :: h ->
+  a = present f per raw.
+Proof. exact public_all_gone_fresh. Qed.
+Print Assumptions C10_public_all_gone_fresh.
+
+(* fixed finding nowrap-empty-snapshot: the code before e278b23 (legacy = true: the
+   empty test came before the wrap step) answered 105 where 5 is demanded when the
+   only device vanished and came back with a smaller reading; the code as it is
+   now answers 5 *)
+Theorem C10_public_before_repair_refuted :
+  exists ops, forallb pop_ok ops = true /\
+    nth 2 (ptrace true [] ops) OutOfModel = Val (PDict [(bs "eth0", [0; 105; 0; 0; 0; 0; 0; 0])]) /\
+    nth 2 (spec_ptrace [] ops) PNone = PDict [(bs "eth0", [0; 5; 0; 0; 0; 0; 0; 0])] /\
+    nth 2 (ptrace false [] ops) OutOfModel = Val (PDict [(bs "eth0", [0; 5; 0; 0; 0; 0; 0; 0])]).
+Proof. exact public_before_repair_refuted. Qed.
+Print Assumptions C10_public_before_repair_refuted.
 
 (* nowrap=False answers the raw values and leaves all history alone *)
-Theorem C10_nowrap_false_raw : forall fixed s f per raw, raw_ok f raw = true ->
-  pstep fixed s (PCall f per false raw) = Val (s, present f per raw).
+Theorem C10_nowrap_false_raw : forall legacy s f per raw, raw_ok f raw = true ->
+  pstep legacy s (PCall f per false raw) = Val (s, present f per raw).
 Proof. exact nowrap_false_raw. Qed.
 Print Assumptions C10_nowrap_false_raw.
